@@ -39,6 +39,15 @@ impl Node for Src {
 }
 
 fn noop(_i: &[Input], _o: &mut [Buffer]) {}
+
+/// buffer count of the corresponding node inside a nested graph (wrapper 9 makes them differ)
+fn inner_count(wrapper: usize, outer: usize) -> usize {
+    if wrapper == 9 {
+        (outer + 1) % 4
+    } else {
+        outer
+    }
+}
 fn sum_fn(i: &[Input], o: &mut [Buffer]) {
     Sum.process(i, o)
 }
@@ -55,7 +64,7 @@ enum Kind {
     SumBuffers,
     Pass,
 }
-const WRAPPERS: [&str; 9] = ["plain", "BoxedNode", "BoxedNodeSend", "Box<Box<T>>", "&mut T", "fn pointer", "Box<dyn Fn>", "Box<dyn FnMut>", "GraphNode"];
+const WRAPPERS: [&str; 10] = ["plain", "BoxedNode", "BoxedNodeSend", "Box<Box<T>>", "&mut T", "fn pointer", "Box<dyn Fn>", "Box<dyn FnMut>", "GraphNode", "GraphNode with different inner buffer counts"];
 
 fn sentinel_bufs(n: usize) -> Vec<Buffer> {
     vec![Buffer::from([SENTINEL; LEN]); n]
@@ -131,13 +140,13 @@ fn stateless_case(kind: Kind, wrapper: usize, in_bufs: &[usize], n_out: usize) -
         (_, k) => {
             // nested graph: one placeholder per outer input (buffers overwritten by GraphNode), feeding the node
             let mut inner: Graph<NodeData<DynNode<'static>>, ()> = Graph::with_capacity(8, 8);
-            let ins: Vec<NodeIndex> = in_bufs.iter().map(|&nb| inner.add_node(NodeData::new(Box::new(noop as fn(&[Input], &mut [Buffer])) as DynNode, sentinel_bufs(nb)))).collect();
+            let ins: Vec<NodeIndex> = in_bufs.iter().map(|&nb| inner.add_node(NodeData::new(Box::new(noop as fn(&[Input], &mut [Buffer])) as DynNode, sentinel_bufs(inner_count(wrapper, nb))))).collect();
             let t: DynNode<'static> = match k {
                 Kind::Sum => Box::new(Sum),
                 Kind::SumBuffers => Box::new(SumBuffers),
                 Kind::Pass => Box::new(Pass),
             };
-            let out = inner.add_node(NodeData::new(t, sentinel_bufs(n_out)));
+            let out = inner.add_node(NodeData::new(t, sentinel_bufs(inner_count(wrapper, n_out))));
             // petgraph yields incoming neighbours newest-edge-first; add edges in reverse so the order matches the flat graph
             for &i in ins.iter() {
                 inner.add_edge(i, out, ());
@@ -156,12 +165,31 @@ fn stateless_case(kind: Kind, wrapper: usize, in_bufs: &[usize], n_out: usize) -
     // order the node actually receives, which the property leaves open: only single-input Pass is checked.
     let mut p = Processor::<G>::with_capacity(8);
     let mut prev: Vec<Vec<f32>> = vec![vec![SENTINEL; LEN]; n_out];
+    let mut prev_inner: Vec<Vec<f32>> = Vec::new();
     for call in 0..3 {
         if let Err(e) = catch(|| p.process(&mut g, t)) {
             return Some(("node.panic".into(), format!("{tag}: call {call} panicked: {e}")));
         }
         let ins: Vec<Vec<Vec<f32>>> = in_bufs.iter().enumerate().map(|(k, &nb)| (0..nb).map(|b| (0..LEN).map(|tt| src_val(k, b, tt, call)).collect()).collect()).collect();
-        let exp = expect_stateless(kind, &ins, &prev);
+        let exp = if wrapper == 9 {
+            // the inner node sees placeholders with a different buffer count: channels the outer input
+            // has are copied in, the others keep the sentinel; the outer node receives min(outer, inner)
+            // of the inner output's buffers and keeps the rest
+            let inner_ins: Vec<Vec<Vec<f32>>> = ins
+                .iter()
+                .zip(in_bufs.iter())
+                .map(|(i, &nb)| (0..inner_count(9, nb)).map(|b| if b < nb { i[b].clone() } else { vec![SENTINEL; LEN] }).collect())
+                .collect();
+            let n_in_out = inner_count(9, n_out);
+            while prev_inner.len() < n_in_out {
+                prev_inner.push(vec![SENTINEL; LEN]);
+            }
+            let inner_out = expect_stateless(kind, &inner_ins, &prev_inner);
+            prev_inner = inner_out.clone();
+            (0..n_out).map(|ch| if ch < n_in_out { inner_out[ch].clone() } else { prev[ch].clone() }).collect()
+        } else {
+            expect_stateless(kind, &ins, &prev)
+        };
         let got: Vec<Vec<f32>> = g[t].buffers.iter().map(|b| b.to_vec()).collect();
         if got != exp {
             let ch = (0..n_out).find(|&c| got[c] != exp[c]).unwrap_or(0);
@@ -286,7 +314,7 @@ fn main() {
         guard::enter(&v.to_string());
         ctx.finish_replay(catch(|| replay(&v)).unwrap_or_else(|p| Some(format!("panic: {p}"))));
     }
-    ctx.rule("Sum / SumBuffers: input count 0..=3 x buffers per input 0..=3 (every combination) x output buffers 0..=3 x 9 wrapper types (plain, BoxedNode, BoxedNodeSend, Box<Box<T>>, &mut T, fn pointer, Box<dyn Fn>, Box<dyn FnMut>, nested GraphNode) x 3 consecutive calls; Pass: 0 or 1 input likewise; Delay: per-channel ring lengths over {1,2,63,64,65,130}^(1..=2 channels) x input buffers 0..=3 x output buffers 0..=3 x 4 wrappers x 4 calls with coded initial ring contents; signal node: Box<dyn Signal<Frame=[f32;2]>> over an instrumented source, output buffers 0..=3, 3 calls, 64 pulls per call; sources write position-coded dyadic values (sums exact in f32), outputs start as a sentinel; oracle = per-node reference function; distinct by configuration");
+    ctx.rule("Sum / SumBuffers: input count 0..=3 x buffers per input 0..=3 (every combination) x output buffers 0..=3 x 10 wrapper types (plain, BoxedNode, BoxedNodeSend, Box<Box<T>>, &mut T, fn pointer, Box<dyn Fn>, Box<dyn FnMut>, nested GraphNode, nested GraphNode whose inner input/output nodes have different buffer counts) x 3 consecutive calls; Pass: 0 or 1 input likewise; Delay: per-channel ring lengths over {1,2,63,64,65,130}^(1..=2 channels) x input buffers 0..=3 x output buffers 0..=3 x 4 wrappers x 4 calls with coded initial ring contents; signal node: Box<dyn Signal<Frame=[f32;2]>> over an instrumented source, output buffers 0..=3, 3 calls, 64 pulls per call; sources write position-coded dyadic values (sums exact in f32), outputs start as a sentinel; oracle = per-node reference function; distinct by configuration");
     let mut evals = 0u64;
     for kind in [Kind::Sum, Kind::SumBuffers, Kind::Pass] {
         for n_in in 0..=(if kind == Kind::Pass { 1 } else { 3 }) {
